@@ -26,7 +26,8 @@ RULE = ("job = seed -> scenario (SSLv3..TLS1.2, every RSA-key-exchange "
         "secretly-invalid classes; every class fails.  distinct = "
         "digest(scenario); non-trivial = >= 10 classes were delivered and "
         "compared"
-        ' Boundary ciphertexts (empty, 0, 1, n-1, n, all-ff, length-prefixed); publicly invalid ciphertexts take part in the uniformity comparison (only the consumed byte count may differ).')
+        ' Boundary ciphertexts (empty, 0, 1, n-1, n, all-ff, length-prefixed); publicly invalid ciphertexts take part in the uniformity comparison (only the consumed byte count may differ).'
+        ' The client may be TLS 1.3 capable (supported_versions in its hello, legacy version 1.2) against a TLS <= 1.2 RSA server.')
 LEVEL_TEXT = ("Seeded search over scenarios, exhaustive over the defect "
               "class list per scenario; determinism turns 'identical "
               "behaviour' into a byte comparison of traces.  Only the wire "
@@ -48,7 +49,7 @@ CLASSES = ["bad_first_byte", "bad_block_type", "zero_in_ps",
            "len_prefixed_ct"]
 PUBLIC = ()
 PROBES = [c for c in CLASSES] + ["sslv3", "tls10", "tls11", "tls12", "client_auth", "etm",
-                    "no_ems", "client_max_higher"]
+                    "no_ems", "client_max_higher", "client_offers_tls13"]
 COMPONENTS_REAL = ["tlslite server: RSAKeyExchange.processClientKeyExchange,"
                    " RSAKey.decrypt (implicit rejection), Finished handling"]
 COMPONENTS_STUB = ["socket", "os.urandom", "clock", "byzantine client"]
@@ -245,11 +246,19 @@ def run(job, streams=None):
         sc["ckey"] = "rsa"
         sc["req_cert"] = True
         probes["client_auth"] = 1
-    if ch.draw(3, "cfg.cmax") == 1 and ver < (3, 3):
+    cm = ch.draw(3, "cfg.cmax")
+    if cm == 1 and ver < (3, 3):
         # client offers more than the server will pick: client_hello version
         # differs from the negotiated version
         sc["cset"]["maxVersion"] = [3, 3]
         probes["client_max_higher"] = 1
+    elif (cm == 2 and ver >= (3, 1)) or (cm == 1 and ver == (3, 3)):
+        # (supported_versions cannot name SSLv3: not with an SSLv3 server)
+        # a TLS 1.3 capable client: its hello carries supported_versions
+        # while the legacy version (the one the premaster secret must
+        # repeat) stays at TLS 1.2
+        sc["cset"]["maxVersion"] = [3, 4]
+        probes["client_offers_tls13"] = 1
     if sc["cset"].get("useEncryptThenMAC"):
         probes["etm"] = 1
     viol = []
